@@ -268,24 +268,32 @@ fn write_corpus(dir: &Path, items: &[&Item]) -> std::io::Result<()> {
     let mut main = String::from(RUNNER_HEAD);
     let mut dispatch = String::from("fn dispatch(key: &str, b: &[u8]) -> Option<Result<Vec<u8>, String>> {\n    match key {\n");
     let mut ids = String::from("fn type_ids() {\n");
+    // one module tree per path: `g::s<i>` holds the code generator's output, `m::s<i>` what
+    // `generate!` expands to; imported types are found as `super::s<j>::Type` in both
+    let mut gmod = String::from("mod g {\n");
+    let mut mmod = String::from("mod m {\n");
     for it in items {
         let i = it.idx;
         std::fs::write(dir.join(format!("schemas/s{}.aldrin", i)), &it.text)?;
         if let Some(code) = &it.gen_code {
             std::fs::write(dir.join(format!("src/gen_s{}.rs", i)), code)?;
-            let _ = writeln!(main, "#[path = \"gen_s{}.rs\"] mod gen_s{};", i, i);
+            let _ = writeln!(gmod, "    #[path = \"{}\"] pub mod s{};", dir.join(format!("src/gen_s{}.rs", i)).display(), i);
         }
-        let _ = writeln!(main, "mod mac_s{} {{ ::aldrin::generate!(\"schemas/s{}.aldrin\", introspection = true); }}", i, i);
+        let _ = writeln!(mmod, "    ::aldrin::generate!(\"schemas/s{}.aldrin\", include = \"schemas\", introspection = true);", i);
         for d in &wire_types(it, None) {
             let n = d.name();
             if it.gen_code.is_some() {
-                let _ = writeln!(dispatch, "        \"{}/g/{}\" => Some(rt::<gen_s{}::r#{}>(b)),", i, n, i, n);
-                let _ = writeln!(ids, "    println!(\"id {}/g/{} {{}}\", TypeId::compute::<gen_s{}::r#{}>().0);", i, n, i, n);
+                let _ = writeln!(dispatch, "        \"{}/g/{}\" => Some(rt::<g::s{}::r#{}>(b)),", i, n, i, n);
+                let _ = writeln!(ids, "    println!(\"id {}/g/{} {{}}\", TypeId::compute::<g::s{}::r#{}>().0);", i, n, i, n);
             }
-            let _ = writeln!(dispatch, "        \"{}/m/{}\" => Some(rt::<mac_s{}::s{}::r#{}>(b)),", i, n, i, i, n);
-            let _ = writeln!(ids, "    println!(\"id {}/m/{} {{}}\", TypeId::compute::<mac_s{}::s{}::r#{}>().0);", i, n, i, i, n);
+            let _ = writeln!(dispatch, "        \"{}/m/{}\" => Some(rt::<m::s{}::r#{}>(b)),", i, n, i, n);
+            let _ = writeln!(ids, "    println!(\"id {}/m/{} {{}}\", TypeId::compute::<m::s{}::r#{}>().0);", i, n, i, n);
         }
     }
+    gmod.push_str("}\n");
+    mmod.push_str("}\n");
+    main.push_str(&gmod);
+    main.push_str(&mmod);
     dispatch.push_str("        _ => None,\n    }\n}\n");
     ids.push_str("}\n");
     main.push_str(&dispatch);
@@ -357,6 +365,20 @@ impl C16 {
                             ],
                             fallback: fb("rest"),
                         }),
+                        ADef::Struct(AStruct {
+                            pre: Prelude::default(),
+                            name: "ByteShapes".into(),
+                            fields: vec![
+                                AField { pre: Prelude::default(), name: "a".into(), id: 1, required: true, ty: AType::Vec(Box::new(AType::U8)) },
+                                AField { pre: Prelude::default(), name: "b".into(), id: 2, required: true, ty: AType::Array(Box::new(AType::U8), crate::schema::gen::ALen::Lit(3)) },
+                                AField { pre: Prelude::default(), name: "c".into(), id: 3, required: false, ty: AType::Vec(Box::new(AType::Vec(Box::new(AType::U8)))) },
+                                AField { pre: Prelude::default(), name: "d".into(), id: 4, required: true, ty: AType::Vec(Box::new(AType::Box(Box::new(AType::U8)))) },
+                                AField { pre: Prelude::default(), name: "e".into(), id: 5, required: true, ty: AType::Result(Box::new(AType::Vec(Box::new(AType::U8))), Box::new(AType::Set(Box::new(AType::U8)))) },
+                                AField { pre: Prelude::default(), name: "f".into(), id: 6, required: true, ty: AType::Map(Box::new(AType::U8), Box::new(AType::Bytes)) },
+                                AField { pre: Prelude::default(), name: "g".into(), id: 7, required: false, ty: AType::Option(Box::new(AType::Vec(Box::new(AType::I8)))) },
+                            ],
+                            fallback: None,
+                        }),
                         ADef::Enum(AEnum {
                             pre: Prelude::default(),
                             name: "Choice".into(),
@@ -384,10 +406,31 @@ impl C16 {
             let cfg = GenCfg { valid: true, hostile_docs: true, max_defs: 6, comments: rng.bool(), attrs: false, plain_types_only: true };
             let mut g = SchemaGen::new(&mut rng, cfg);
             let name = format!("s{}", idx);
-            let schema = g.schema(&name, &[]);
+            // up to two earlier schemas may be imported (their types used as `s<j>::Type`)
+            let mut importable: Vec<(String, Vec<String>)> = Vec::new();
+            if !items.is_empty() {
+                for _ in 0..g.r.below(3) {
+                    let it = &items[g.r.below(items.len())];
+                    if it.gen_code.is_none() || importable.iter().any(|(n, _)| *n == it.schema.name) {
+                        continue;
+                    }
+                    let types: Vec<String> = it.schema.defs.iter().filter(|d| matches!(d, ADef::Struct(_) | ADef::Enum(_) | ADef::Newtype { .. })).map(|d| d.name().to_string()).collect();
+                    if !types.is_empty() {
+                        importable.push((it.schema.name.clone(), types));
+                    }
+                }
+            }
+            let schema = g.schema(&name, &importable);
             drop(g);
+            if !schema.imports.is_empty() {
+                out.count("schemas_with_imports", 1);
+            }
             let text = Layout { r: &mut rng, wild: (idx % 2) as u32 }.render(&schema);
-            let parser = Parser::parse(MemoryResolver::new(name.clone(), Ok(text.clone())));
+            let mut resolver = MemoryResolver::new(name.clone(), Ok(text.clone()));
+            for it in &items {
+                resolver.add(it.schema.name.clone(), Ok(it.text.clone()));
+            }
+            let parser = Parser::parse(resolver);
             out.eval();
             out.distinct_case(fnv(text.as_bytes()));
             if !parser.errors().is_empty() {
@@ -437,7 +480,7 @@ impl C16 {
             let mut blamed: Vec<usize> = Vec::new();
             for &i in &live {
                 let idx = items[i].idx;
-                if err.contains(&format!("gen_s{}.rs", idx)) || err.contains(&format!("schemas/s{}.aldrin", idx)) || err.contains(&format!("mac_s{}", idx)) || err.contains(&format!("gen_s{}::", idx)) {
+                if err.contains(&format!("gen_s{}.rs", idx)) || err.contains(&format!("schemas/s{}.aldrin", idx)) || err.contains(&format!("g::s{}::", idx)) || err.contains(&format!("m::s{}::", idx)) {
                     blamed.push(i);
                 }
             }
@@ -460,6 +503,16 @@ impl C16 {
                 );
             }
             live.retain(|i| !blamed.contains(i));
+            // whatever imports a dropped schema cannot be built either: dropped without blame
+            loop {
+                let names: Vec<String> = live.iter().map(|&i| items[i].schema.name.clone()).collect();
+                let before = live.len();
+                live.retain(|&i| items[i].schema.imports.iter().all(|(_, imp)| names.contains(imp)));
+                if live.len() == before {
+                    break;
+                }
+                out.count("schemas_dropped_with_their_import", (before - live.len()) as u64);
+            }
             if live.is_empty() || round == 3 {
                 break;
             }
